@@ -6,29 +6,29 @@ from harness.c01_ndef import lens_for
 PROPERTY = "C02"
 
 
-def t2(sx, S, prefix, rsv, oldlens, lens, long, retry=False):
+def t2(sx, S, prefix, rsv, oldlens, lens, long, retry=False, outage=0):
     oldlen = sx.pick("oldlen", oldlens)
     w = worlds.T2World(sx, S, prefix, [tuple(r) for r in rsv], oldlen,
                        old_lt_80=long)
     w.long_trick = long
     n = sx.pick("n", [x for x in lens_for(w.cap, lens) if x <= w.cap])
-    return ndefflow.cutflow(sx, w, n, retry)
+    return ndefflow.cutflow(sx, w, n, retry, outage)
 
 
-def t1(sx, hr, size, prefix, rsv, oldlens, lens, long, retry=False):
+def t1(sx, hr, size, prefix, rsv, oldlens, lens, long, retry=False, outage=0):
     oldlen = sx.pick("oldlen", oldlens)
     w = worlds.T1World(sx, tuple(hr), size, prefix, [tuple(r) for r in rsv], oldlen,
                        old_lt_80=long)
     w.long_trick = long
     n = sx.pick("n", [x for x in lens_for(w.cap, lens) if x <= w.cap])
-    return ndefflow.cutflow(sx, w, n, retry)
+    return ndefflow.cutflow(sx, w, n, retry, outage)
 
 
-def t3(sx, nbr, nbw, nmaxb, oldlens, lens, emulated, retry=False):
+def t3(sx, nbr, nbw, nmaxb, oldlens, lens, emulated, retry=False, outage=0):
     oldlen = sx.pick("oldlen", [o for o in oldlens if o <= nmaxb * 16])
     w = worlds.T3World(sx, nbr, nbw, nmaxb, oldlen, emulated=emulated)
     n = sx.pick("n", [x for x in lens_for(w.cap, lens) if x <= w.cap])
-    return ndefflow.cutflow(sx, w, n, retry)
+    return ndefflow.cutflow(sx, w, n, retry, outage)
 
 
 class FixedOS(object):
@@ -191,6 +191,22 @@ def partitions(tier):
         parts.append(dict(name="t2:48:%s:ctl" % prefix, fn="t2",
                           params=dict(S=48, prefix=prefix, rsv=rsv, oldlens=[0, 4],
                                       lens=[2, 9, "cap"], long=True)))
+    # ---- the tag misses all attempts of one command (out of the field for a
+    # moment) and answers again: the write fails with TagCommandError, but
+    # whatever the writer sends afterwards (clean-up) reaches the tag
+    O = dict(outage=3)
+    parts.append(dict(name="outage:t3:nbw1", fn="t3",
+                      params=dict(nbr=4, nbw=1, nmaxb=5, oldlens=[33], lens=[33, 40], emulated=False, **O)))
+    parts.append(dict(name="outage:t3:nbw2", fn="t3",
+                      params=dict(nbr=4, nbw=2, nmaxb=5, oldlens=[40], lens=[17, 40], emulated=False, **O)))
+    parts.append(dict(name="outage:t2:48", fn="t2",
+                      params=dict(S=48, prefix="N", rsv=[], oldlens=[9], lens=[9, 11], long=True, **O)))
+    parts.append(dict(name="outage:t1:static", fn="t1",
+                      params=dict(hr=[0x11, 0x48], size=120, prefix="", rsv=[], oldlens=[6], lens=[6, 9],
+                                  long=True, **O)))
+    parts.append(dict(name="outage:t1:dyn", fn="t1",
+                      params=dict(hr=[0x12, 0x4C], size=512, prefix="", rsv=[], oldlens=[20], lens=[12, 20],
+                                  long=True, **O)))
     # ---- the application repeats the write through the same tag object after
     # the cut; the repeated write is cut at every point or completes
     R = dict(retry=True)
@@ -233,7 +249,7 @@ MUST_REACH = ["cut", "cut_before_first_write", "write_completed_without_cut",
               "after_cut_not_readable", "retry_completed", "retry_cut",
               "lite_authenticated_reader_after_cut_in_data_phase",
               "lite_plain_reader_after_cut_in_data_phase"]
-BOUNDS = {"quick": "T2: 48- and 496-byte data areas, NDEF TLV at offsets 0..3 mod 4, old/new lengths on both sides of 254/255, cut before every WRITE; one repetition of the same write through the same tag object after the cut (Type 1 static/dynamic, Type 2, Type 3 and its emulation), itself cut at every point or completed",
+BOUNDS = {"quick": "T2: 48- and 496-byte data areas, NDEF TLV at offsets 0..3 mod 4, old/new lengths on both sides of 254/255, cut before every WRITE; one repetition of the same write through the same tag object after the cut (Type 1 static/dynamic, Type 2, Type 3 and its emulation), itself cut at every point or completed; a momentary outage (the three attempts of one command unanswered, then the tag answers again) at every point",
           "thorough": "as quick with every new length for the 48-byte area"}
 OUTSIDE = ["torn writes inside one command", "tags that change memory on a failed command",
            "a repeated write after the cut on a Type 4 Tag (the ISO-DEP state after a failed exchange is the known finding of C12)",
